@@ -40,6 +40,17 @@ Monitors (all installed from here, nothing in /repo is edited)
       stream bodies, in aggregations and scans, in filters / keys / globals, on the right side of joins, in the action's own query) and
       every relational node kind the front end can emit offline with every type-relevant optional constructor argument (interval joins
       with and without all_matches from tables and from matrix rows, sorted key_by, un-keying, foreign-key joins, ...).
+  M8  nodes that combine SEVERAL relational children (TableUnion, TableMultiWayZipJoin, MatrixUnionRows, MatrixUnionCols; also TableJoin
+      and TableLeftJoinRightDistinct keys): their type -- in the Python rule and in the engine's `typ` alike -- is read off the FIRST
+      child; that the others agree is established by the front-end METHOD (Table.union(unify=True) re-selects every table onto the
+      unified field list and casts numeric fields to the common type; union without unify, multi_way_zip_join, union_rows, union_cols
+      compare and refuse) and ASSERTED by the engine (TypeCheck.scala, transcribed into vf/hail_relational_rules.py).  The transcribed
+      assertion is evaluated on every such node of the emitted and of the rebuilt trees (`...-engine-rule-rejects-accepted-node` /
+      `sent-ir/...-rejects-rebuilt-node`); phase `nary` generates what it needs: 2..4 tables derived from one table whose value fields
+      have the same names but other, unifiable numeric types (int32 / int64 / float32 / float64 and arrays of them), same / other field
+      order, missing / extra / non-unifiable fields, unify True / False, any of them as the receiver, some with seeded randomness, then
+      expressions over the unified fields (their reported type rests on the node's reported row type) and a schema model of what
+      `unify` means (the widest numeric type per field); matrix tables likewise for union_rows / union_cols.
 Contract evaluations are counted; zero => INCONCLUSIVE (FLOORS).
 """
 import math
@@ -69,7 +80,12 @@ RULE = (
     'collect_cols_by_key, explode_cols, union_rows, distinct_by_row, head / tail, sample_rows / cols, unfilter_entries, rename, localize -> '
     '_unlocalize_entries, add_row / col_index) with seeded randomness (rand_bool / int32 / int64 / unif / norm / pois / beta / gamma / cat / '
     'hyper / dirichlet / shuffle, inside map / filter / flatmap / sorted / fold / scan / zip bodies, in aggregations, scans, filters, keys, '
-    'globals, join right sides and action queries) in about half of the generated expressions.  A case is non-trivial '
+    'globals, join right sides and action queries) in about half of the generated expressions.  Phase nary: 2..4 tables derived from one '
+    'range table (key idx, or a computed str key that is not the leading row field) with 1..3 numeric / numeric-array value fields: each sibling '
+    're-types fields to another of int32 / int64 / float32 / float64, re-orders, drops or adds a field, makes one non-unifiable, only moves the key, '
+    'filters randomly; Table.union with unify True / False or multi_way_zip_join with any of them as the receiver; then an annotate over a '
+    'unified field and a random consumer; for matrix tables union_rows (2..3) / union_cols over re-typed entry / col / row fields.  On every '
+    'node with several relational children the engine\'s TypeCheck assertion about the children is evaluated (emitted and rebuilt tree).  A case is non-trivial '
     'when at least one derivational contract was evaluated; distinct by (phase, sequence of operations, resulting type).'
 )
 ASSUMPTIONS = [
@@ -77,7 +93,9 @@ ASSUMPTIONS = [
     'the repository\'s binding metadata (the engine\'s inference cannot run here)',
     'for relational IR (TableIR / MatrixIR) and the struct spine of their row / global / col / entry constructors it is the engine\'s own '
     'Scala `typ` definition, transcribed by hand into vf/hail_relational_rules.py (TableIR.scala, MatrixIR.scala, TableType / MatrixType / '
-    'TStruct helpers, InferType.scala for MakeStruct / SelectFields / InsertFields / GetField / Let / Ref); the transcription is trusted',
+    'TStruct helpers, InferType.scala for MakeStruct / SelectFields / InsertFields / GetField / Let / Ref; TypeCheck.scala for what the engine '
+    'asserts about the children of TableUnion / TableMultiWayZipJoin / MatrixUnionRows / MatrixUnionCols / TableJoin / TableLeftJoinRightDistinct); '
+    'the transcription is trusted',
     'the schema model of the Table / MatrixTable methods in this file states what the methods are documented to do',
     '"the IR it sends" is produced by calling the same entry points the action constructors call (ir.TableCollect(tir).child, '
     'tir.handle_randomness(default_row_uid), mir.handle_randomness(row uid, col uid)); nothing is executed.  MatrixRead._compute_type asks the '
@@ -161,6 +179,27 @@ FLOORS = {
     'entries_tables_under_a_uid_requesting_consumer': 45, 'entries_tables_under_a_random_filter': 35,
     'multi_way_zip_joins_under_a_uid_requesting_consumer': 25, 'random_group_keys_rebuilt': 18,
     'sent_random_pipeline_node:TableMultiWayZipJoin': 95,
+    # phase nary (nodes with several relational children): cases, evaluations of the engine's child-agreement rule on emitted / rebuilt trees
+    # in total and per class over children that are NOT one and the same node, unions accepted with / without unify and refused, unions
+    # that need numeric widening / where a table already has the unified names and order but another numeric type (the class of
+    # seeded/C36-agent10) / with re-ordered, missing or extra fields / whose receiver itself needs casting / of 3+ tables / followed by
+    # expressions over the unified field, zip joins and matrix unions accepted and refused
+    'nary_cases': 180, 'nary_children_rule_checked': 410, 'sent_nary_children_rule_checked': 1700,
+    'nary_children_rule_checked_distinct_children:TableUnion': 150, 'sent_nary_children_rule_checked_distinct_children:TableUnion': 810,
+    'nary_children_rule_checked_distinct_children:TableMultiWayZipJoin': 60,
+    'sent_nary_children_rule_checked_distinct_children:TableMultiWayZipJoin': 200,
+    'nary_children_rule_checked_distinct_children:MatrixUnionRows': 10,
+    'sent_nary_children_rule_checked_distinct_children:MatrixUnionRows': 180,
+    'nary_children_rule_checked_distinct_children:MatrixUnionCols': 50,
+    'sent_nary_children_rule_checked_distinct_children:MatrixUnionCols': 380, 'nary_children_rule_checked_3plus_children:TableUnion': 100,
+    'nary_children_rule_checked_3plus_children:TableMultiWayZipJoin': 30, 'nary_children_rule_checked_3plus_children:MatrixUnionRows': 4,
+    'unions_accepted:unify=True': 55, 'unions_accepted:unify=False': 10, 'nary_union_refused': 30, 'unions_over_different_row_types': 50,
+    'unions_with_numeric_widening': 40, 'unions_where_a_table_has_the_unified_names_and_order_but_another_numeric_type': 25,
+    'unions_with_reordered_missing_or_extra_fields': 40, 'unions_whose_receiver_needs_casting': 35, 'unions_of_3plus_tables': 30,
+    'unions_downstream_over_unified_field': 75, 'unions_unify_over_tables_that_differ_only_in_key_position': 9, 'nary_mwzj_accepted': 10,
+    'nary_mwzj_refused': 7, 'nary_union_rows_accepted': 2, 'nary_union_rows_refused': 11, 'nary_union_cols_accepted': 10,
+    'nary_union_cols_refused': 9, 'nary_union_cols_accepted_over_tables_that_differ_in_a_field_the_method_need_not_compare': 1,
+    'nary_union_rows_accepted_over_tables_that_differ_in_a_field_the_method_need_not_compare': 1,
 }
 
 # MatrixTable.union_cols in the matrix workload.  OFF by default: on the unchanged tree it witnesses a GENUINE disagreement between the
@@ -192,7 +231,7 @@ RANDOM_GROUP_KEY_IN_WORKLOAD = os.environ.get('VERIF_C36_RANDOM_GROUP_KEY', '1')
 # unify from `row_value.dtype` alone, emits TableUnion over children whose row types differ in field order, which the engine's TypeCheck
 # rejects (VERIF_C36_UNION_KEY_POSITION=1 to turn on; witnesses are attributed to
 # `relational/TableUnion-children-differ-in-key-position-after-union-unify`).
-UNION_KEY_POSITION_IN_WORKLOAD = os.environ.get('VERIF_C36_UNION_KEY_POSITION', '0') == '1'
+UNION_KEY_POSITION_IN_WORKLOAD = os.environ.get('VERIF_C36_UNION_KEY_POSITION', '1') == '1'
 
 # IR classes whose "rule" merely returns a type stored at construction (no derivation from children)
 VACUOUS = {'Ref', 'TopLevelReference', 'Apply', 'ApplySeeded', 'NA', 'Literal', 'EncodedLiteral', 'Cast', 'Die', 'Recur', 'JavaIR',
@@ -2869,4 +2908,33 @@ def _plain_h(v):
 #   S7  TableRename._handle_randomness drops the global map                          -> sent-ir/table-type-differs-from-reported-type, sent-ir/relational/TableMapGlobals-engine-rule-rejects-rebuilt-node
 #       (needed rename of a GLOBAL field in the workload: added)
 #   earlier seeds C36-agent2 / agent4 / agent6: still caught (same keys as before, plus their sent-ir/ twins).
+# -------------------------------------------------------------------------------------------------
+#
+# -------------------------------------------------------------------------------------------------
+# M8 (nodes with several relational children) -- validation record
+# (scratch worktree /tmp/c36w/scratch = /repo HEAD 6c2e38e25, quick tier, seed 0, one break at a time; worktree removed afterwards)
+#
+# Why: seeded/C36-agent10 (Table.union(unify=True) skips the re-selecting TableMapRows -- and with it the numeric cast -- for a table
+# that already has the unified field names in the unified order) passed the monitor: the only union generated was `t.union(t)`, the
+# transcribed rule for TableUnion was the engine's `typ` (first child) without the assertion TypeCheck.scala makes about the other
+# children, and nothing modelled what `unify` means.
+#
+# GENUINE disagreement found on the UNCHANGED tree (/repo 6c2e38e25) by M8 (switched OFF in the default workload until repaired / registered):
+#   G4  relational/TableUnion-children-differ-in-key-position-after-union-unify      (VERIF_C36_UNION_KEY_POSITION=1)
+#       t = hl.utils.range_table(3); t = t.key_by(ks=hl.str(t.idx)).annotate(v0=1)      # row struct{idx, ks, v0}, key [ks]
+#       s = t.select('idx', 'v0')                                                         # row struct{ks, idx, v0}, key [ks]
+#       u = s.union(t, unify=True)       # reported struct{ks, idx, v0}; TableUnion children: struct{ks, idx, v0}, struct{idx, ks, v0}
+#       Table.union decides that nothing has to be unified from `row_value.dtype` alone (`len(set(ht.row_value.dtype ...)) == 1`) although
+#       unify=True has waived the `ht.row.dtype == self.row.dtype` test: tables whose value fields agree but whose key fields sit at
+#       different positions of the row are handed to TableUnion as they are; TypeCheck.scala asserts
+#       `childrenSeq.tail.forall(_.typ.rowType == childrenSeq(0).typ.rowType)` (field order is part of struct equality) and rows of the
+#       second child would be read with the first child's layout.  Without unify the same call is refused (ValueError).
+#
+# Breaks (all CAUGHT, quick tier, seed 0):
+#   S8  seeded/C36-agent10                                                   -> relational/TableUnion-engine-rule-rejects-accepted-node,
+#                                                                               sent-ir/relational/TableUnion-engine-rule-rejects-rebuilt-node, table/union-row-schema-differs-from-meaning
+#   N1  Table.union without unify compares the field NAMES only               -> relational/TableUnion-engine-rule-rejects-accepted-node (+ sent-ir twin)
+#   N2  Table.multi_way_zip_join compares the row field NAMES only            -> relational/TableMultiWayZipJoin-engine-rule-rejects-accepted-node (+ sent-ir twin)
+#   N3  MatrixTable.union_rows compares the entry field NAMES only            -> relational/MatrixUnionRows-engine-rule-rejects-accepted-node (+ sent-ir twin)
+#   N4  MatrixTable.union_cols compares the col field NAMES only              -> relational/MatrixUnionCols-engine-rule-rejects-accepted-node (+ sent-ir twin)
 # -------------------------------------------------------------------------------------------------
